@@ -20,7 +20,7 @@ ID = "C15"
 ENGINE = "kernel"
 LEVEL = "exploration"
 TECHNIQUE = "deterministic simulation: real reactors + tcp over a fake kernel (sockets, select/poll/epoll/selector), seeded partial I/O, delivery and close timing"
-QUICK_RUNS = 2400
+QUICK_RUNS = 8000
 BATCH = 30
 COMPONENTS = {"real": ["twisted.internet.selectreactor/pollreactor/epollreactor/asyncioreactor (doIteration, _doReadOrWrite)", "twisted.internet.posixbase (_disconnectSelectable, _PollLikeMixin, waker)",
                        "twisted.internet.base.ReactorBase (timed calls)", "twisted.internet.tcp (Port, Server, Client, Connection, Connector)", "twisted.internet.abstract.FileDescriptor"],
@@ -52,6 +52,11 @@ class Rec(protocol.Protocol):
         bs = self.st["bufferSize"]
         if bs:
             self.transport.bufferSize = bs
+        sl = self.st.get("SEND_LIMIT")
+        if sl:
+            # tuning knob of every stream transport: most bytes offered to send() at once, and the backlog above which
+            # newly written data is parked instead of being merged into the buffer that is being sent
+            self.transport.SEND_LIMIT = sl
         self.sim.event(self.name, "connectionMade")
 
     def dataReceived(self, data):
@@ -90,20 +95,21 @@ def run(sim):
     rcvbuf = sim.draw_choice([65536, 1, 7, 64, 1024], "rcvbuf")
     bufsz = sim.draw_choice([0, 16, 300], "bufferSize")
     half = sim.draw_bool(0.5, "halfcloseable")
+    send_limit = sim.draw_choice([0, 0, 1, 4, 50, 4096], "SEND_LIMIT")   # 0 = the default (128 KiB)
     closing = sim.draw_choice(["lose", "halfclose", "abort"], "closing")
     closer = sim.draw_choice(["C", "S"], "closer")
     oneway = sim.draw_bool(0.45, "oneway")   # only the closing side writes (so no RST can be provoked by the peer's data)
     small = min(sndbuf, rcvbuf) <= 64
-    unit = min(sndbuf, rcvbuf, bufsz or 65536)   # bytes moved per syscall at best
+    unit = min(sndbuf, rcvbuf, bufsz or 65536, send_limit or 65536)   # bytes moved per syscall at best
     maxtotal = min(sim.draw_choice([2000, 200000, 2000000], "maxtotal"), max(150, unit * 120))
-    sim.config = {"reactor": kind, "sndbuf": sndbuf, "rcvbuf": rcvbuf, "bufferSize": bufsz, "half": half, "closing": closing, "closer": closer, "maxtotal": maxtotal, "oneway": oneway}
+    sim.config = {"reactor": kind, "sndbuf": sndbuf, "rcvbuf": rcvbuf, "bufferSize": bufsz, "half": half, "closing": closing, "closer": closer, "maxtotal": maxtotal, "oneway": oneway, "SEND_LIMIT": send_limit}
     now = [0.0]
     kern = K.Kernel(sim, sndbuf=sndbuf, rcvbuf=rcvbuf)
     kern.spurious_p = sim.draw_choice([0.0, 0.0, 0.05], "spurious_p")
     patt = {"C": random.Random(sim.draw_int(0, 10**6, "pattC")).randbytes(maxtotal + 10),
             "S": random.Random(sim.draw_int(0, 10**6, "pattS")).randbytes(maxtotal + 10)}
     # a half-closeable protocol that sees the peer's FIN after a full close must close itself
-    st = {"oneway": oneway, "closer": closer, "armed": False, "bufferSize": bufsz, "close_on_read_lost": closing != "halfclose"}
+    st = {"oneway": oneway, "closer": closer, "armed": False, "bufferSize": bufsz, "close_on_read_lost": closing != "halfclose", "SEND_LIMIT": send_limit}
     protos = {}
     cls = HalfRec if half else Rec
 
